@@ -1,8 +1,11 @@
 import Verif.Util.Proto
 import Verif.Model.Types.Subtype
+import Verif.Model.Types.SubStruct
 import Verif.Gen.SubtypeRules
 /-! Driver for stream `types` (C08): ops `sub A B`, `refl A`, `bounds A`, `trans A B C`; types in the
-    Polish notation of `stream_types.go`.  The model is the interpretation of the *regenerated* rules. -/
+    Polish notation of `stream_types.go`.  The model is the interpretation of the *regenerated* rules;
+    the structured relation `Struct.sub` (the one the transitivity theorems are about) is judged against
+    the Go relations on every line as well: a disagreement is a MODELDIFF (`st=`). -/
 open Verif.Proto Verif.Model.Types Verif.Model.Auth
 
 def rules := Verif.Gen.SubtypeRules.rules
@@ -124,6 +127,7 @@ def judge (op : List String) (go : String) : Verdict :=
       let mIs := isSub rules fuel ta tb
       let mChk := check rules fuel ta tb
       let mEq := ta == tb
+      let mSt := Struct.sub ta tb
       let tags := ["sub", "sub-" ++ headTag ta, "super-" ++ headTag tb, "r-" ++ bit mIs] ++
         (if mIs && !mEq then ["!nt"] else [])
       let eq := fieldOf go "eq"; let seq := fieldOf go "seq"; let rt := fieldOf go "rt"
@@ -137,13 +141,14 @@ def judge (op : List String) (go : String) : Verdict :=
       else if eq == "0" && !allSame chk then .violation "handwritten-generated-disagree" "CheckSubTypeWithoutEquality = _gen (sema) = _gen (interpreter)" tags
       else if eq != seq || rt != "1" then .violation "static-conversion" "sema -> static -> sema is the identity and preserves equality" tags
       else
-        let m := "eq=" ++ bit mEq ++ " is=" ++ bit mIs ++ " chk=" ++ bit mChk
-        if eq == bit mEq && is.take 1 == bit mIs && (eq == "1" || chk.take 1 == bit mChk) then .ok tags else .modelDiff m tags
+        let m := "eq=" ++ bit mEq ++ " is=" ++ bit mIs ++ " chk=" ++ bit mChk ++ " st=" ++ bit mSt
+        if eq == bit mEq && is.take 1 == bit mIs && (eq == "1" || chk.take 1 == bit mChk) && is.take 1 == bit mSt then .ok tags
+        else .modelDiff m tags
     | _, _ => .skip "bad-type"
   | ["types", "refl", a] =>
     match parseType a with
     | some ta =>
-      let m := isSub rules (fuelFor ta ta) ta ta
+      let m := isSub rules (fuelFor ta ta) ta ta && Struct.sub ta ta
       let tags := ["refl", "t-" ++ headTag ta, "!nt"]
       if go != "111" then .violation "refl-failure" "T <: T in every implementation" tags
       else if m then .ok tags else .modelDiff "0" tags
@@ -151,7 +156,8 @@ def judge (op : List String) (go : String) : Verdict :=
   | ["types", "bounds", a] =>
     match parseType a with
     | some ta =>
-      let m := isSub rules (fuelFor ta ta) never ta && isSub rules (fuelFor ta ta) ta any
+      let m := isSub rules (fuelFor ta ta) never ta && isSub rules (fuelFor ta ta) ta any &&
+        Struct.sub never ta && Struct.sub ta any
       let tags := ["bounds", "t-" ++ headTag ta, "!nt"]
       if go != "111 111" then .violation "bounds-failure" "Never <: T <: Any in every implementation" tags
       else if m then .ok tags else .modelDiff "0" tags
@@ -163,12 +169,13 @@ def judge (op : List String) (go : String) : Verdict :=
       let bc := isSub rules (fuelFor tb tc) tb tc
       let ac := isSub rules (fuelFor ta tc) ta tc
       let m := bit ab ++ bit bc ++ bit ac
+      let mSt := bit (Struct.sub ta tb) ++ bit (Struct.sub tb tc) ++ bit (Struct.sub ta tc)
       let tags := ["trans", "chain-" ++ bit ab ++ bit bc] ++ (if ab && bc then ["!nt"] else [])
       if go.toList.contains 'P' then .violation "go-panic-or-internal" "booleans" tags
       else if go == "110" then
         .violation (if neverUnderContainer ta then "trans-never-under-container" else "trans-failure")
           "A <: B and B <: C imply A <: C" tags
-      else if go == m then .ok tags else .modelDiff m tags
+      else if go == m && go == mSt then .ok tags else .modelDiff (m ++ " st=" ++ mSt) tags
     | _, _, _ => .skip "bad-type"
   | _ => .skip "unknown-op"
 
